@@ -33,6 +33,7 @@ mod g_reader;
 mod g_tsig;
 mod g_writer;
 mod g_server;
+mod g_srvsafe;
 mod g_srvtsig;
 mod g_zonefile;
 mod g_include;
@@ -70,6 +71,7 @@ fn main() {
             "tsig" => g_tsig::gen(&mut rng, thorough, &mut em),
             "writer" => g_writer::gen(&mut rng, thorough, &mut em),
             "server" => g_server::gen(&mut rng, thorough, &mut em),
+            "srvsafe" => g_srvsafe::gen(&mut rng, thorough, &mut em),
             "srvtsig" => g_srvtsig::gen(&mut rng, thorough, &mut em),
             "serverdbg" => g_server::debug_big(&mut rng),
             "zonefile" => g_zonefile::gen(&mut rng, thorough, &mut em),
@@ -138,6 +140,9 @@ pub fn run_case(case: &str) -> String {
         return r;
     }
     if let Some(r) = g_server::run(op, &args) {
+        return r;
+    }
+    if let Some(r) = g_srvsafe::run(op, &args) {
         return r;
     }
     if let Some(r) = g_srvtsig::run(op, &args) {
